@@ -402,30 +402,11 @@ End FarmQ.
 Module StkQ.
 Import MX.Model.Staking QStk.
 
-(** the view is the BASE part of what claimRewards pays, for every state and every argument;
-    the rest of the payment is exactly the claimer's boosted reward [b] *)
-Lemma staking_rewards_base s blk ep c x arps b s' o :
-  claim s blk ep c x arps b = Ok (s', o) ->
-  exists base nn, calc_rewards s blk x arps = Ok base /\ o = [nn; x; base + b] /\ 0 <= b.
-Proof.
-  unfold claim, calc_rewards, query_cache, boosted_of_nobody. intros H.
-  apply bind_ok in H. destruct H as (s1 & H1 & H).
-  apply bind_ok in H. destruct H as (base & Hb & H).
-  rewrite H1. cbn [bind]. rewrite Hb. cbn [bind].
-  cbn [sstep] in H.
-  destruct (active s); [|discriminate].
-  destruct ((0 <? x) && (x <=? s_supply s)); [|discriminate].
-  rewrite H1 in H. cbn [bind] in H.
-  apply bind_ok in H. destruct H as (s2 & H2 & H). inversion H; subst; clear H.
-  unfold pay in H2. destruct ((0 <=? b) && (b <=? base + b)) eqn:E; [|discriminate].
-  apply andb_prop in E. destruct E as [E _]. apply Z.leb_le in E.
-  exists base, (s_next s2). split; [f_equal; lia|]. split; [reflexivity | exact E].
-Qed.
-
-(** claimRewards continues from exactly the cache the query computed and dropped *)
-Lemma staking_query_settlement s blk ep c x arps b s' o :
-  claim s blk ep c x arps b = Ok (s', o) ->
-  exists s1 s2 r, query_cache s blk = Ok s1 /\ pay s1 r b = Ok s2 /\ s' = bump s2 /\ o = [s_next s2; x; r].
+(** what claimRewards pays, in terms of the query's own cache and helpers *)
+Lemma claim_paid s blk ep c x arps bo s' o :
+  claim s blk ep c x arps bo = Ok (s', o) ->
+  exists s1 base nn, query_cache s blk = Ok s1 /\ base_rewards s1 x arps = Ok base /\
+                     o = [nn; x; base + bo c] /\ 0 <= bo c.
 Proof.
   unfold claim, query_cache. intros H.
   apply bind_ok in H. destruct H as (s1 & H1 & H).
@@ -435,38 +416,77 @@ Proof.
   destruct ((0 <? x) && (x <=? s_supply s)); [|discriminate].
   rewrite H1 in H. cbn [bind] in H.
   apply bind_ok in H. destruct H as (s2 & H2 & H). inversion H; subst; clear H.
-  exists s1, s2, (base + b). auto.
+  unfold pay in H2. destruct ((0 <=? bo c) && (bo c <=? base + bo c)) eqn:E; [|discriminate].
+  apply andb_prop in E. destruct E as [E _]. apply Z.leb_le in E.
+  exists s1, base, (s_next s2). auto.
 Qed.
 
-(** F3: the literal statement "quote = payment" fails as soon as the claimer has boosted rewards pending.
-    The history below is executed on the real farm-staking contract by tools/props/c20.py (corpus entry
-    "f3-pending-boosted": two stakers of 10^8, boosted yields 25 %, energies 9800/100 and 4900/350, both
-    claim at block 20 in week 1); at block 30 in week 2 the real view answers 3750 for user 2's position
-    and the real claimRewards pays 4791 = 3750 + 1041 boosted. *)
+(** calculateRewardsForGivenPosition(x, attributes, Some claimer) - whatever owner the attributes record -
+    and calculateRewardsForGivenPosition(x, attributes, None) when the claimer IS the recorded original
+    owner are exactly the reward claimRewards pays to that claimer in the same state and block *)
+Lemma staking_rewards_exec s blk ep c x arps bo s' o :
+  claim s blk ep c x arps bo = Ok (s', o) ->
+  exists nn v,
+    o = [nn; x; v] /\
+    (forall owner, calc_rewards s blk x arps owner (Some c) bo = Ok v) /\
+    calc_rewards s blk x arps c None bo = Ok v.
+Proof.
+  intros H. apply claim_paid in H. destruct H as (s1 & base & nn & H1 & Hb & -> & _).
+  exists nn, (base + bo c). split; [reflexivity|].
+  unfold calc_rewards. rewrite H1. cbn [bind]. rewrite Hb. cbn [bind view_user]. split; [intros _|]; reflexivity.
+Qed.
+
+(** the default (no user argument) on a position whose recorded original owner is NOT the claimer quotes
+    the OWNER's boosted part: the quote then differs from the payment by exactly
+    boosted(claimer) - boosted(owner), and by nothing else *)
+Lemma staking_default_user s blk ep c x arps owner bo s' nn amt paid v :
+  claim s blk ep c x arps bo = Ok (s', [nn; amt; paid]) ->
+  calc_rewards s blk x arps owner None bo = Ok v ->
+  paid - v = bo c - bo owner /\ (owner = c -> v = paid) /\ (v = paid <-> bo owner = bo c).
+Proof.
+  intros H Hv. apply claim_paid in H. destruct H as (s1 & base & n2 & H1 & Hb & Ho & _).
+  inversion Ho; subst; clear Ho.
+  unfold calc_rewards in Hv. rewrite H1 in Hv. cbn [bind] in Hv. rewrite Hb in Hv. cbn [bind view_user] in Hv.
+  inversion Hv; subst v; clear Hv.
+  split; [lia|]. split; [intros ->; reflexivity | lia].
+Qed.
+
+(** the view fails only where the claim fails too *)
+Lemma staking_rewards_err s blk ep c x arps owner ou bo er :
+  calc_rewards s blk x arps owner ou bo = Err er -> is_ok (claim s blk ep c x arps bo) = false.
+Proof.
+  intros Hv. destruct (claim s blk ep c x arps bo) as [[s' o]|] eqn:E; [|reflexivity].
+  apply claim_paid in E. destruct E as (s1 & base & nn & H1 & Hb & _).
+  unfold calc_rewards in Hv. rewrite H1 in Hv. cbn [bind] in Hv. rewrite Hb in Hv. discriminate.
+Qed.
+
+(** claimRewards continues from exactly the cache the query computed and dropped *)
+Lemma staking_query_settlement s blk ep c x arps bo s' o :
+  claim s blk ep c x arps bo = Ok (s', o) ->
+  exists s1 s2 r, query_cache s blk = Ok s1 /\ pay s1 r (bo c) = Ok s2 /\ s' = bump s2 /\ o = [s_next s2; x; r].
+Proof.
+  unfold claim, query_cache. intros H.
+  apply bind_ok in H. destruct H as (s1 & H1 & H).
+  apply bind_ok in H. destruct H as (base & Hb & H).
+  cbn [sstep] in H.
+  destruct (active s); [|discriminate].
+  destruct ((0 <? x) && (x <=? s_supply s)); [|discriminate].
+  rewrite H1 in H. cbn [bind] in H.
+  apply bind_ok in H. destruct H as (s2 & H2 & H). inversion H; subst; clear H.
+  exists s1, s2, (base + bo c). auto.
+Qed.
+
+(** The history of the former finding F3 (executed on the real farm-staking contract by
+    tools/props/c20.py, corpus entry "f3-pending-boosted": two stakers of 10^8, boosted yields 25 %,
+    energies 9800/100 and 4900/350, both claim at block 20 in week 1).  At block 30 in week 2 user 2
+    has 1041 boosted rewards pending; since /repo e810a71 the real view answers 4791 for user 2's
+    position and claimRewards pays 4791 (before: 3750 versus 4791). *)
 Definition f3_state : stk :=
   srun (init_stk 1000000000000 1000000 10)
        [SSetRate 10 OWNER 1000; SSetState OWNER 1; STopUp OWNER 1000000000; SStart 10 OWNER;
         SSetPct 10 OWNER 2500; SSetFactors OWNER;
         SStake 10 5 1 100000000 0 0; SStake 10 5 2 100000000 0 0;
         SClaim 20 5 1 100000000 3750 0; SClaim 20 5 2 100000000 3750 0].
-
-Lemma staking_refuted :
-  exists s blk ep c x arps b s' nn v paid,
-    claim s blk ep c x arps b = Ok (s', [nn; x; paid]) /\ calc_rewards s blk x arps = Ok v /\ v <> paid.
-Proof.
-  exists f3_state, 30, 12, 2, 100000000, 37500000, 1041.
-  eexists. eexists. eexists. eexists.
-  split; [vm_compute; reflexivity|]. split; [vm_compute; reflexivity|]. vm_compute. discriminate.
-Qed.
-
-(** any difference between payment and quote is EXACTLY the claimer's boosted reward *)
-Lemma staking_difference s blk ep c x arps b s' nn amt paid v :
-  claim s blk ep c x arps b = Ok (s', [nn; amt; paid]) -> calc_rewards s blk x arps = Ok v ->
-  paid - v = b /\ 0 <= b /\ amt = x.
-Proof.
-  intros H Hv. apply staking_rewards_base in H. destruct H as (base & n2 & Hb & Ho & Hb0).
-  rewrite Hv in Hb. inversion Hb; subst base. inversion Ho; subst. split; [lia|]. split; [exact Hb0 | reflexivity].
-Qed.
 
 End StkQ.
 
@@ -673,8 +693,8 @@ Lemma views_pure :
      exists f1 f2 fv,
        Farm.pay_all f c ((n0, x0) :: adds) = Ok f1 /\ Farm.settle f1 blk = Ok f2 /\
        QFarm.query_cache f blk = Ok fv /\ FarmInv.same_but_toks fv f2) /\
-  (forall s blk ep c x arps b s' o,
-     QStk.claim s blk ep c x arps b = Ok (s', o) ->
-     exists s1 s2 r, QStk.query_cache s blk = Ok s1 /\ Staking.pay s1 r b = Ok s2 /\
+  (forall s blk ep c x arps bo s' o,
+     QStk.claim s blk ep c x arps bo = Ok (s', o) ->
+     exists s1 s2 r, QStk.query_cache s blk = Ok s1 /\ Staking.pay s1 r (bo c) = Ok s2 /\
                      s' = Staking.bump s2 /\ o = [Staking.s_next s2; x; r]).
 Proof. split; [exact FarmQ.farm_query_settlement | exact StkQ.staking_query_settlement]. Qed.
